@@ -9,7 +9,8 @@ def sh(cmd, timeout=3600):
     p = subprocess.run(cmd, shell=True, capture_output=True, text=True, timeout=timeout)
     return p.returncode, p.stdout + p.stderr
 
-names = [a for a in sys.argv[1:] if not a.startswith("--")] or sorted(os.listdir("/verif/seeded"))
+V = os.path.dirname(os.path.dirname(os.path.abspath(__file__)))      # the checkout this script lives in (a snapshot can run on its own)
+names = [a for a in sys.argv[1:] if not a.startswith("--")] or sorted(os.listdir(V + "/seeded"))
 # default: in /repo itself (the documented way: git -C /repo apply, check, git -C /repo checkout -- .).
 # --scratch: in a throw-away worktree of /repo's HEAD with VERIF_REPO pointing at it, so that /repo stays free for other runs
 SCRATCH = "--scratch" in sys.argv
@@ -26,7 +27,7 @@ if o.strip():
     print("refusing: %s has uncommitted changes" % TREE); sys.exit(2)
 missed = 0
 for name in names:
-    d = os.path.join("/verif/seeded", name)
+    d = os.path.join(V, "seeded", name)
     if not os.path.exists(d + "/patch.diff"):
         continue
     ev = json.load(open(d + "/eval.json")) if os.path.exists(d + "/eval.json") else {"name": name}
@@ -39,7 +40,7 @@ for name in names:
         continue
     try:
         t = time.time()
-        rc2, o2 = sh("cd /verif && %s./check %s --tier quick" % (ENV, pid))
+        rc2, o2 = sh("cd %s && %s./check %s --tier quick" % (V, ENV, pid))
         viol = [l for l in o2.split("\n") if l.startswith("VIOLATION") or l.strip().startswith("what:")]
     finally:
         sh("git -C %s checkout -- ." % TREE)
